@@ -126,7 +126,7 @@ package markdown
 //@ ensures para == nil ==> result == ""
 //@ ensures para != nil ==> result == old(runsCat(w.opts, para.Runs, len(para.Runs)))
 //@ loop 1
-//@   invariant 0 <= #i && #i <= len(para.Runs) && unchangedHeap() && buildersUnchangedExcept() && para != nil
+//@   invariant 0 <= #i && #i <= len(para.Runs) && unchangedHeap() && para != nil
 //@   invariant sbContent(result) == old(runsCat(w.opts, para.Runs, #i))
 //@   decreases len(para.Runs) - #i
 
@@ -231,7 +231,7 @@ package markdown
 //@ modifies nothing
 //@ ensures result == wrapOut(text, maxLength)
 //@ loop 1
-//@   invariant 0 <= #i && #i <= len(words) && buildersUnchangedExcept()
+//@   invariant 0 <= #i && #i <= len(words)
 //@   invariant sbContent(line) == wrapLine(text, maxLength, #i)
 //@   invariant sbContent(result) == wrapRes(text, maxLength, #i)
 //@   decreases len(words) - #i
@@ -257,7 +257,7 @@ package markdown
 //@ modifies nothing
 //@ ensures result == old(cellText(w.opts, cell))
 //@ loop 1
-//@   invariant 0 <= #i && #i <= len(cell.Paragraphs) && unchangedHeap() && buildersUnchangedExcept() && cell != nil
+//@   invariant 0 <= #i && #i <= len(cell.Paragraphs) && unchangedHeap() && cell != nil
 //@   invariant sbContent(result) == old(cellCat(w.opts, cell.Paragraphs, #i))
 //@   decreases len(cell.Paragraphs) - #i
 
